@@ -51,7 +51,10 @@ Record dcase := mkDc {
   dc_served : list doc;        (* documents the provider handed out, oldest first *)
 }.
 
-(* ---- clause 1: fail closed while no document has been obtained *)
+(* ---- clause 1: fail closed while no usable document has been obtained.
+   "Obtained" is read on the provider's side: among the documents it had started
+   to send when the response was complete, none names an issuer (a 200 answer
+   "{}" is not provider metadata). *)
 
 Definition is_closed (q : obs_req) : bool :=
   (Z.eqb (oq_status q) 503 || Z.eqb (oq_status q) 408)
@@ -59,8 +62,10 @@ Definition is_closed (q : obs_req) : bool :=
   && match oq_loc q with None => true | Some _ => false end
   && negb (oq_cookies q).
 
-Definition closed_ok (q : obs_req) : bool :=
-  if N.eqb (oq_ok_after q) 0 then is_closed q else true.
+Definition has_issuer (d : doc) : bool := negb (N.eqb (d_issuer d) 0).
+
+Definition closed_ok (served : list doc) (q : obs_req) : bool :=
+  if existsb has_issuer (firstn (N.to_nat (oq_ok_after q)) served) then true else is_closed q.
 
 (* ---- clause 2: a redirect goes to the authorization endpoint of the latest document handed out *)
 
@@ -124,6 +129,6 @@ Definition step_reqs (c : dcase) : list obs_req := flat_map reqs_of_step (dc_ste
 Definition all_reqs (c : dcase) : list obs_req := dc_pre c ++ step_reqs c.
 
 Definition check_case (c : dcase) : bool :=
-  forallb closed_ok (all_reqs c)
+  forallb (closed_ok (dc_served c)) (all_reqs c)
   && forallb (endpoint_ok (dc_served c)) (all_reqs c)
   && (if heal_applies c then heal_ok c else true).
